@@ -11,6 +11,7 @@ from sklearn.cluster import KMeans
 
 from . import Gaussian, GaussianTrainer
 from .utils import _ProbabilisticModel
+from pb_bss import _verif
 
 
 @dataclass
@@ -137,6 +138,11 @@ class GMMTrainer:
                 covariance_type=covariance_type,
                 fixed_covariance=fixed_covariance,
             )
+            if _verif.ENABLED:
+                _verif.emit(
+                    'em_iteration', trainer=self, iteration=iteration, model=model,
+                    affiliation=affiliation, quadratic_form=None, observation=y,
+                )
 
         return model
 
